@@ -7,6 +7,13 @@ transition is compared with the dictionary-union model below.
 Part 2 (file level): every set partition of a group's data over 1-4 files x
 every include order x four nestings x injections, loaded by GroupLibrary.Load;
 plus GroupLibrary.Update with and without overwrite.
+Part 3 (include trees, third wave): every ordered rooted tree of includes with
+<= 4 (quick) / <= 5 (thorough) files x every way of storing each included file
+next to the including file or in a subdirectory of its own (directory-local
+file names, so one relative include string names different files in different
+directories) x the group's data in any 1, 2 or 3 of the files (all injective
+assignments; the other files are pure index files or define another group) x
+{no injection, conflicting datum} (thorough also: duplicate equal datum).
 """
 import itertools
 import os
@@ -24,17 +31,27 @@ DEPTH = {'quick': 4, 'thorough': None}
 BOUND = {'quick': '4 reference-temperature placements x 2 classes; 17 pieces x '
                   '{merge, merge-with-overwrite}; BFS depth 4 from 17 initial '
                   'states; file level: all set partitions of 5 data over <= 4 '
-                  'files x all include orders x 4 nestings x 5 injections',
+                  'files x all include orders x 4 nestings x 5 injections; '
+                  'include trees: all 8 ordered rooted trees with 2-4 files x '
+                  'all 2^(n-1) same-directory/subdirectory placements x all '
+                  'injective assignments of 1, 2, 3 data blocks to the files x '
+                  '{none, conflict} (3268 loads)',
          'thorough': 'same alphabet, BFS to the fixpoint (complete reachable '
                      'state graph); file level additionally with zero-valued '
-                     'reference values in every nesting'}
+                     'reference values in every nesting; include trees: all '
+                     '22 trees with 2-5 files, same product, injections {none, '
+                     'conflict, duplicate-equal}'}
 RULE = ('explicit-state search: a state is the canonical form (H_ref, S_ref, '
         'Cp table, range, T_ref to 12 significant digits + attribute names) of '
         'the real object obtained by replaying an event history on a fresh '
         'object; every enabled event is executed from every state; a '
         'transition is non-trivial when the model predicts a rejection, an '
         'overwrite, or a union that changes the state; file-level cases are '
-        'non-trivial when data for one group come from more than one file')
+        'non-trivial when data for one group come from more than one file '
+        '(include-tree cases likewise; the numbers of tree cases in which a '
+        'file without data for the group lies between two files that hold '
+        'some, and in which one relative include string names two different '
+        'files, are counted separately)')
 ASSUMPTIONS = ['all pieces of one run share one reference temperature (as the '
                'quantifier states); files with two different reference '
                'temperatures are judged differentially only (all include orders '
@@ -44,7 +61,13 @@ ASSUMPTIONS = ['all pieces of one run share one reference temperature (as the '
                'conflict)',
                'canonical state drops only floating-point noise below 1e-12; '
                'every getter is a function of the five fields, and the '
-               'attribute-name component exposes any new hidden field']
+               'attribute-name component exposes any new hidden field',
+               'include trees: include strings are relative to the directory '
+               'of the including file (as every shipped library uses them); '
+               'every file is included exactly once (no file reachable along '
+               'two include paths), all in one scheme and one T_ref; files '
+               'without data for the group are pure index files when they '
+               'include something, else they define one other group']
 MANIFEST = dict(
     technique='explicit-state BFS over the real update()/Load transition '
               'functions against a dictionary-union reference model',
@@ -56,10 +79,17 @@ MANIFEST = dict(
          'checked. At file level every split of a group over 1-4 files, every '
          'include order and nesting, with injected duplicates, conflicts and '
          'second spellings, is loaded and compared with the single-file '
-         'library.',
+         'library. Every ordered rooted include tree of up to 4 (quick) / 5 '
+         '(thorough) files, with the group\'s data in any 1-3 of the files and '
+         'every included file stored next to its includer or in its own '
+         'subdirectory under directory-local names, is loaded and compared '
+         'with the union; a conflicting datum anywhere in the tree must be '
+         'rejected.',
     note='One shared reference temperature per run; data values come from a '
-         'small alphabet incl. zero; more than 4 files or deeper nesting than '
-         'a 4-chain is not covered.',
+         'small alphabet incl. zero; more than 4 (quick) / 5 (thorough) files '
+         'or include depth beyond 3 (quick) / 4 (thorough), a file reachable '
+         'along two include paths, absolute or ..-relative include strings '
+         'are not covered.',
     ref='5/C13')
 
 
@@ -383,6 +413,8 @@ def load_files(files):
         with open(os.path.join(d, 'scheme.yaml'), 'w') as f:
             f.write(SCHEME)
         for n, t in files.items():
+            if os.path.dirname(n):
+                os.makedirs(os.path.join(d, os.path.dirname(n)), exist_ok=True)
             with open(os.path.join(d, n), 'w') as f:
                 f.write(t)
         return GroupLibrary.Load(os.path.join(d, 'library.yaml'))
@@ -483,6 +515,148 @@ def run_files(R, part, tier, only=None):
                     if vkind == 'zero' and tier == 'quick' and nesting != 'flat':
                         continue
                     file_case(R, part, order, nesting, inj, vkind, only)
+
+
+# ------------------------------------------------------- include trees
+#
+# "whatever the include order or nesting": the nestings above are four fixed
+# shapes in ONE directory in which every file that is merged into holds data
+# for the group.  Here the nesting is an arbitrary ordered rooted tree of
+# includes (every shape with <= TREE_N files), the group's data sit in ANY k of
+# the files (so index files without data for the group occur above, between
+# and below the files that hold some), and every included file is stored
+# either next to the including file or in a subdirectory of its own, with
+# directory-local file names (so one relative include string names different
+# files in different directories).
+
+TREE_N = {'quick': 4, 'thorough': 5}
+TREE_PARTS = {1: [['H', 'S', 'Cp300', 'Cp400', 'Cp500']],
+              2: [['H', 'Cp300'], ['S', 'Cp400', 'Cp500']],
+              3: [['H'], ['S', 'Cp300'], ['Cp400', 'Cp500']]}
+TREE_INJ = {'quick': ['none', 'conflict'],
+            'thorough': ['none', 'conflict', 'duplicate-equal']}
+OTHER_GROUP = 'C(C)2(H)2'
+
+
+def tree_files(parents, placement, holders, inj):
+    """-> (files, expect).  holders[j] = node that holds block j of
+    TREE_PARTS[len(holders)]; a file holding nothing for the group is a pure
+    index file if it includes something, else it defines another group."""
+    from ..domains import w3_c13 as W
+    vals = VALS['nonzero']
+    paths, includes = W.place(parents, placement)
+    ch = W.children(parents)
+    blocks = {v: (GROUP, list(b), vals)
+              for v, b in zip(holders, TREE_PARTS[len(holders)])}
+    expect = 'union'
+    if inj in ('conflict', 'duplicate-equal'):
+        # the first datum of block 0 is given again by the holder of the last
+        # block - with the same or with another value
+        d0 = TREE_PARTS[len(holders)][0][0]
+        g, data, v = blocks[holders[-1]]
+        v2 = dict(v)
+        if inj == 'conflict':
+            v2[d0] = OTHER[d0]
+            expect = 'conflict'
+        blocks[holders[-1]] = (g, data + [d0], v2)
+    files = {}
+    for v in range(len(parents)):
+        if v in blocks:
+            b = [blocks[v]]
+        elif ch[v]:
+            b = []
+        else:
+            b = [(OTHER_GROUP, ['H', 'S'], OTHER)]
+        files[paths[v]] = file_text(b, [includes[c] for c in ch[v]])
+    return files, expect
+
+
+def tree_case(R, parents, placement, holders, inj):
+    from pgradd.Error import ReadOnlyDataError
+    from ..domains import w3_c13 as W
+    parents, placement, holders = tuple(parents), tuple(placement), tuple(holders)
+    k = len(holders)
+    files, expect = tree_files(parents, placement, holders, inj)
+    desc = dict(tree=list(parents), placement=list(placement),
+                holders=list(holders), injection=inj, files=sorted(files))
+    wit = dict(kind='tree', parents=list(parents), placement=list(placement),
+               holders=list(holders), injection=inj)
+    R.evals += 1
+    if k > 1:
+        R.nontrivial += 1
+    if W.same_include_string_elsewhere(parents, placement):
+        R.extra['tree cases with one include string naming two files'] += 1
+    if any(parents[h] >= 0 and parents[h] not in holders
+           and any(a in holders for a in ancestors(parents, h)) for h in holders):
+        R.extra['tree cases with a data-free file between two holders'] += 1
+    try:
+        lib = load_files(files)
+        got = 'loaded'
+    except ReadOnlyDataError:
+        got = 'ReadOnlyDataError'
+    except Exception as e:    # noqa
+        got = 'EXC:' + type(e).__name__
+    R.outcomes['tree:%s:%s' % (inj, got)] += 1
+    key = None
+    if expect == 'conflict':
+        if got != 'ReadOnlyDataError':
+            key = 'tree-conflict-not-rejected'
+            msg = ('two different values for %s were given (by file number '
+                   '%d and file number %d of the tree) but Load %s'
+                   % (TREE_PARTS[k][0][0], holders[0], holders[-1], got))
+    elif got != 'loaded':
+        key = 'tree-spurious-' + got
+        msg = 'conflict-free files were not loaded: ' + got
+    else:
+        want = (r12(vals_of('H')), r12(vals_of('S')),
+                tuple((r12(float(d[2:])), r12(vals_of(d))) for d in DATA[2:]),
+                (200.0, 1000.0), FT)
+        have = dump_group(lib)
+        has_other = any(OTHER_GROUP in t for t in files.values())
+        if have != want:
+            key = 'tree-wrong-union'
+            msg = 'library holds %r, union of the files is %r' % (have, want)
+        elif has_other and dump_group(lib, OTHER_GROUP) != (
+                r12(OTHER['H']), r12(OTHER['S']), (), (200.0, 1000.0), FT):
+            key = 'tree-lost-group'
+            msg = 'the other group is missing or wrong: %r' % (
+                dump_group(lib, OTHER_GROUP),)
+        else:
+            probs = getters_agree(lib[GROUP]['thermochem'], want[:4], FT)
+            if probs:
+                key, msg = 'tree-getters-disagree', probs[0]
+    if key:
+        R.violation('%s:%s:%s' % (
+            key, 'subdirs' if 'sub' in placement else 'one-dir',
+            'depth>=2' if W.depth(parents) >= 2 else 'depth1'),
+            '%s: %s' % (desc, msg), wit)
+    R.sample(desc, limit=2)
+
+
+def vals_of(d):
+    return VALS['nonzero'][d]
+
+
+def ancestors(parents, v):
+    out = []
+    while parents[v] >= 0:
+        v = parents[v]
+        out.append(v)
+    return out
+
+
+def run_trees(R, parents, tier):
+    from ..domains import w3_c13 as W
+    n = len(parents)
+    for placement in W.placements(n):
+        for k in sorted(TREE_PARTS):
+            if k > n:
+                continue
+            for holders in W.holder_assignments(n, k):
+                for inj in TREE_INJ[tier]:
+                    if inj != 'none' and k == 1:
+                        continue
+                    tree_case(R, parents, placement, holders, inj)
 
 
 def run_update(R):
@@ -623,6 +797,10 @@ def shards(tier, seed):
         if len(p) <= 4:
             out.append(('files', p))
     out.append(('update',))
+    from ..domains import w3_c13 as W
+    for n in range(2, TREE_N[tier] + 1):
+        for parents in W.trees(n):
+            out.append(('trees', parents))
     return out
 
 
@@ -634,6 +812,8 @@ def run_shard(shard, tier):
         run_files(R, shard[1], tier)
     elif shard[0] == 'two-tref':
         run_two_tref(R)
+    elif shard[0] == 'trees':
+        run_trees(R, shard[1], tier)
     else:
         run_update(R)
     return R
@@ -654,6 +834,8 @@ def replay(w):
                     file_case(R, part, tuple(range(len(part))), nesting, inj, vk, only=d)
     elif w['kind'] == 'two-tref':
         run_two_tref(R, only=w)
+    elif w['kind'] == 'tree':
+        tree_case(R, w['parents'], w['placement'], w['holders'], w['injection'])
     else:
         run_update(R)
     return dict(violates=bool(R.violations),
